@@ -345,6 +345,37 @@ pub fn shard_run(prop: &str, tier: &str, seed: u64, replay: Option<&serde_json::
             }
         }
     }
+    // ---- two uploads of ONE client (both AddVersion on the nil parent) whose bodies arrive
+    // interleaved on one server worker: one is accepted, and what is stored is exactly its bytes
+    if replay.is_none() && prop == "C03" && shard.mine(2) {
+        use crate::ops::Resp;
+        for workers in [1usize, 2] {
+            let web = taskchampion_sync_server::WebServer::new(crate::subject::Config::default().to_server(), None, taskchampion_sync_server_core::InMemoryStorage::new());
+            let Ok(srv) = crate::net::SockServer::start(web, workers) else { continue };
+            for (i, (na, nb)) in [(3000usize, 200usize), (70_000, 70_000), (5, 300_000), (200, 3000)].iter().enumerate() {
+                let c = uuid::Uuid::new_v4();
+                let o = crate::checks_c06::overlapping_version_uploads(&srv.addr, c, c, *na, *nb, seed ^ (i as u64) << 9);
+                cov.evaluations += 2;
+                cov.hit(format!("overlapping-uploads-of-one-client|workers={workers}"));
+                let accepted: Vec<&Vec<u8>> = [(&o.a_up, &o.da), (&o.b_up, &o.db)].iter().filter(|(r, _)| matches!(r, Resp::AddOk { .. })).map(|(_, d)| *d).collect();
+                let bad = match (accepted.len(), &o.a_down) {
+                    (1, Resp::Found { data, .. }) if data == accepted[0] => None,
+                    (1, Resp::Found { data, .. }) => Some(format!("the accepted upload's version is served with {} bytes that differ from what that request sent at offset {:?}", data.len(), crate::ops::first_diff(data, accepted[0]))),
+                    (n, d) => Some(format!("{n} of the two uploads on the nil parent were accepted (A: {}, B: {}), first version read back: {}", o.a_up.short(), o.b_up.short(), d.short())),
+                };
+                if let Some(m) = bad {
+                    out.found.push(Found {
+                        property: "C03".into(),
+                        msg: format!("two AddVersion uploads of one client overlapping on a {workers}-worker server (A {na} bytes in two halves, B {nb} bytes in between): {m}"),
+                        signature: "C03:overlapping uploads".into(),
+                        replay: json!({"origin": "c03-overlap", "case": i, "workers": workers}),
+                    });
+                    out.cov = cov;
+                    return out;
+                }
+            }
+        }
+    }
     out.cov = cov;
     out
 }
